@@ -17,6 +17,12 @@ def main():
         sdir = os.path.join(ROOT, "seeded", name)
         meta = json.load(open(os.path.join(sdir, "meta.json")))
         pid = name[:3]
+        if meta.get("check_result", {}).get("pinned"):
+            # result recorded by hand against the tree the change was verified on (see its note)
+            results[name] = meta["check_result"]
+            json.dump(results, open(rp, "w"), indent=1, sort_keys=True)
+            print(name, "PINNED", meta["check_result"]["result"], flush=True)
+            continue
         d = tempfile.mkdtemp(prefix="c3seed.", dir="/tmp")
         try:
             shutil.copytree("/repo/src", os.path.join(d, "src"), ignore=shutil.ignore_patterns("__pycache__", "*.egg-info"))
